@@ -9,17 +9,17 @@ BASELINE = "cd /repo && /venv/bin/python -m pytest -ra -q -p no:cacheprovider --
 CHECKS = {
     'C01': dict(
         text='Lean: Spec.PyCore gives a first-order core of Python (ints, bools, strings, None; assignment, if, while/else, for-in-range/else, break/continue, '
-             'try/except/else/finally, print, assert, raise, global, calls of module-level functions) a fuel-indexed definitional semantics whose observable is '
-             'the printed lines, how the run ends and the final globals. Proved for every module, nesting depth and fuel, through loops '
+             'try/except/else/finally, print, assert, raise, global, import statements as ordered import events binding opaque values, calls of module-level functions) a fuel-indexed definitional semantics whose observable is '
+             'the printed lines, how the run ends, the final globals and the sequence of import events. Proved for every module, nesting depth and fuel, through loops '
              'and calls (strong induction on fuel, mutual structural induction on statements): remove_pass, remove_literal_statements '
-             '(with its __doc__ guard), remove_explicit_return_none, remove_builtin_exception_brackets and remove_object_base leave the '
+             '(with its __doc__ guard), combine_imports, remove_explicit_return_none, remove_builtin_exception_brackets and remove_object_base leave the '
              'observable unchanged; constant folding (for ANY oracle, via a homomorphism theorem on expressions and the folding-step '
              'lemma over PyInt) and positional-only conversion refine it (identical unless the original run leaves the core); so does '
-             'every pipeline of these seven in transformM. Ties: the semantics is validated against CPython exec on generated core '
+             'every pipeline of these eight in transformM; under -O semantics (runO) remove_asserts and remove_debug are neutral too and the pipeline theorem covers ten transforms (all but annotation removal); a run that ends within its fuel is the same at every larger fuel. Ties: the semantics is validated against CPython exec on generated core '
              'programs; the transform model is compared with minify() on them; differential execution of original vs minified (stdout, '
              'exception type / exit status, public namespace) on generated runnable programs, directed scope programs and corner '
              'programs over subsets of the thirteen default-on switches decides the rest on the real code.',
-        note='PARTIAL: renaming, hoisting, import combining and annotation removal have no PyCore theorem (their structural contracts '
+        note='PARTIAL: renaming, hoisting and annotation removal have no PyCore theorem (their structural contracts '
              'are C02-C06, C09, C10); outside the PyCore fragment the property rests on the oracle. Documented-unsafe corners of '
              'default options are known findings F12a-d.',
         technique='Lean 4 proof of behaviour preservation over a definitional core semantics + spec validation against CPython + differential execution of the real minifier',
